@@ -126,6 +126,12 @@ pub fn build_cases(cfg: &Cfg) -> Vec<Case> {
             cases.push(Case { name: g.name.to_string(), pres: g.pres.clone(), k: kk });
         }
     }
+    // degenerate but legal: presentations containing an empty relator
+    for g in groupcorpus::corpus().into_iter().take(12) {
+        let mut p2 = g.pres.clone();
+        p2.rels.insert(0, vec![]);
+        cases.push(Case { name: format!("{} + empty relator", g.name), pres: p2, k: 3 });
+    }
     // Z^4
     let mut z4 = vec![];
     for a in 1..=4i64 {
